@@ -7,7 +7,7 @@ modulus on ints, `x ** 2` is `x*x`, `x ** 0.5` is the uninterpreted `sqrt`.
 """
 from fractions import Fraction
 import z3
-from .values import (Sym, SChar, SSeq, SSet, Choice, Obj, ExcVal, Opaque, I, R, B, AI, AR, AB,
+from .values import (Sym, SChar, SSeq, SSet, SDict, RandVal, Choice, Obj, ExcVal, Opaque, I, R, B, AI, AR, AB,
                      wrap_elem, arr_sort, is_symbolic)
 
 # uninterpreted real functions
@@ -17,6 +17,7 @@ LOGB = z3.Function('logb', R, R, R)     # logb(x, base)
 EXP = z3.Function('exp', R, R)
 LN = z3.Function('ln', R, R)
 
+_card_hook = None   # set by the interpreter: callable(SSet) -> z3 Int cardinality (fresh, constrained)
 UF_USED = [False]  # set as soon as one of the uninterpreted real functions is applied (solver front end adds their axioms)
 
 
@@ -350,7 +351,9 @@ def length(v):
         return 1
     if isinstance(v, SSet):
         if v.card is None:
-            raise Unsupported('len of symbolic set without cardinality')
+            if _card_hook is None:
+                raise Unsupported('len of symbolic set without cardinality')
+            v.card = _card_hook(v)
         return mk(v.card, 'int')
     if isinstance(v, Choice):
         return map_choice(v, length)
@@ -718,6 +721,8 @@ def contains(container, x):
         if not is_symbolic(x):
             return x in container
         return mk(z3.Or([cx == ord(c) for c in container]) if container else z3.BoolVal(False), 'bool')
+    if isinstance(container, SDict):
+        return mk(z3.Select(container.dom, z3int(x)), 'bool')
     if isinstance(container, SSet):
         cx = char_code(x) if container.ek == 'char' else z3int(x)
         if cx is None:
@@ -739,7 +744,14 @@ def set_diff(a, b):
     sa, sb = to_sset(a), to_sset(b)
     j = z3.Int('j!s')
     pred = LAM(j, z3.And(z3.Select(sa.pred, j), z3.Not(z3.Select(sb.pred, j))))
-    return SSet(pred, sa.ek, None)
+    r = SSet(pred, sa.ek, None)
+    rng_ = getattr(sa, 'src', None)
+    if isinstance(rng_, tuple) and rng_[0] == 'range':
+        from .speclib import SumI
+        # inside [lo,hi) membership in the range-set is true, so the count is over "not in b" alone
+        r.card = SumI(LAM(j, z3.If(z3.Not(z3.Select(sb.pred, j)), z3.IntVal(1), z3.IntVal(0))), rng_[1], rng_[2])
+        r.src = rng_
+    return r
 
 
 def to_sset(s, ek='int'):
